@@ -98,7 +98,7 @@ class M(Hooks):
 
 def budget(tier):
     if tier == 'quick':
-        return dict(examples=4000, wall=100)
+        return dict(examples=6000, wall=100)
     return dict(examples=100000, wall=1500)
 
 
